@@ -1434,6 +1434,11 @@ fn replacements_at(root: &Expr, index: usize) -> Vec<Expr> {
     subs.into_iter().map(|s| replace_at(root, index, &s)).collect()
 }
 
+/// The sub-expression with pre-order index `index` (the order of [`Expr::visit`]) replaced.
+pub fn replace_subexpr(root: &Expr, index: usize, with: &Expr) -> Expr {
+    replace_at(root, index, with)
+}
+
 fn replace_at(root: &Expr, index: usize, with: &Expr) -> Expr {
     fn go(e: &Expr, k: &mut usize, index: usize, with: &Expr) -> Expr {
         let me = *k;
